@@ -434,3 +434,24 @@ def chained_assign_split(src):
 
 
 EXTRA4 = (("messages-reworded", messages_reworded), ("docstrings-stripped", docstrings_stripped), ("chained-assign-split", chained_assign_split))
+
+
+# ---- compositions ------------------------------------------------------------------------------------------------------
+def _compose(*fns):
+    def f(src):
+        for g in fns:
+            src = g(src)
+        return src
+    return f
+
+
+def _runner_fn(name):
+    def f(src):
+        from . import runner
+        return getattr(runner, name)(src)
+    return f
+
+
+COMBOS = (("combo-a", _compose(log_inserted, compare_flipped, else_after_return, return_via_temp, _runner_fn("_rename_locals"))),
+          ("combo-b", _compose(_runner_fn("_invert_ifs"), augassign_expanded, and_nested, early_continue, method_wrapped, docstrings_stripped)),
+          ("combo-c", _compose(with_to_acquire, de_morgan, compare_flipped, stat_counter, messages_reworded, chained_assign_split, _runner_fn("_rename_locals"))))
